@@ -33,13 +33,13 @@ RULE = ("per-run seed -> knobs + a history of 1-4 writer transactions (adds, gro
         "returned, x surviving prefixes of unflushed user-space buffers {none, all, one PRNG prefix per open file}. "
         "evaluations = crash states recovered (reopen + full dump + new writer + commit + orphan scan); a crash state is "
         "non-trivial when it lies strictly inside a transaction, distinct = distinct SHA-256 of (directory tree bytes, "
-        "acceptable generations). Thorough tier evaluates every captured state of every run; quick tier samples a "
-        "bounded number per run, weighted towards commit()/cancel().")
+        "acceptable generations). Each run recovers a bounded sample of its captured states (quick <= 40, thorough <= 600, "
+        "weighted 3:1 towards commit()/cancel()); runs with fewer captured states are recovered exhaustively.")
 ASSUMPTIONS = ["crash model = kill -9 of the writing process: kernel-visible state survives in full, user-space buffers survive as a prefix no shorter than the last explicit flush; power-loss (no fsync) reordering is outside the property's crash model and not injected",
                "recovery runs in a fresh simulated process that shares nothing with the dead one but the file system",
                "TOC temp files (_MAIN_n.toc.<time>) and the MAIN.tmp directory are not 'segment files': their survival is recorded, not judged"]
 TIERS = {"quick": {"runs": 96, "time_budget": 110, "audit_every": 30, "max_states": 40},
-         "thorough": {"runs": 4000, "time_budget": 1700, "audit_every": 100, "max_states": 100000}}
+         "thorough": {"runs": 4000, "time_budget": 1700, "audit_every": 100, "max_states": 600}}
 
 SEGFILE = re.compile(r"^MAIN_([0-9a-z]+)\.")
 TOCFILE = re.compile(r"^_MAIN_([0-9]+)\.toc$")
@@ -295,6 +295,7 @@ def execute_enum(record, trace=False):
     gc.disable()
     try:
         for key, snap, acc, where, inside, seq, vname, phase in todo:
+            engine.heartbeat()
             st["crash_states_recovered"] += 1
             st["phase_" + phase] = st.get("phase_" + phase, 0) + 1
             st["variant_" + vname] = st.get("variant_" + vname, 0) + 1
